@@ -242,6 +242,14 @@ def _trig_axioms(eng, t):
                 z3.And((t < b) == (F("cos")(t) > F("cos")(b)), (b < t) == (F("cos")(b) > F("cos")(t))),
             )
         )
+    # evenness / oddness / periodicity against earlier arguments
+    for b in _apps(eng, "trig"):
+        if b.eq(t):
+            continue
+        cb, sb = F("cos")(b), F("sin")(b)
+        eng.add_axiom(z3.Implies(t == -b, z3.And(c == cb, s == -sb)))
+        eng.add_axiom(z3.Implies(z3.Or(t == b + 2 * PI, t == b - 2 * PI), z3.And(c == cb, s == sb)))
+        eng.add_axiom(z3.Implies(t == b, z3.And(c == cb, s == sb)))
     # link with inverse applications
     for u in _apps(eng, "arccos"):
         _acos_link(eng, u, t)
